@@ -12,7 +12,7 @@ package rest
 //@   requires d != nil && d.witness != nil && d.witSigV != nil && d.client != nil && l.Verifier != nil
 //@   requires counterDistRestAttempt != nil && counterDistRestSuccess != nil && counterDistRestAttempt != counterDistRestSuccess
 //@   modifies n_ro, ro_err, n_gl, gl_err, gl_val, gl_h, n_glc, glc_id, glc_out, glc_err, cnt
-//@   modifies req_method, req_url, req_body, rdr_bytes, n_do, do_method, do_url, do_body, do_err, do_status, do_final_method, rd_buf
+//@   modifies req_method, req_url, req_body, rdr_bytes, n_do, do_method, do_url, do_body, do_err, do_status, do_final_method, do_resp_body, rd_buf
 //@   ghostmodifies n_dfl, n_dfl_fail
 //@   ensures[ghost] n_dfl == old(n_dfl) + 1 && n_dfl_fail == old(n_dfl_fail) + (err != nil ? 1 : 0)
 //@   // the witness is asked once, for this log's ID; at most one request goes out
@@ -35,7 +35,7 @@ package rest
 //@   requires counterDistRestAttempt != nil && counterDistRestSuccess != nil && counterDistRestAttempt != counterDistRestSuccess
 //@   requires forall j int :: 0 <= j && j < len(d.logs) ==> d.logs[j].Verifier != nil
 //@   modifies n_ro, ro_err, n_gl, gl_err, gl_val, gl_h, n_glc, glc_id, glc_out, glc_err, cnt
-//@   modifies req_method, req_url, req_body, rdr_bytes, n_do, do_method, do_url, do_body, do_err, do_status, do_final_method, rd_buf, n_dfl, n_dfl_fail
+//@   modifies req_method, req_url, req_body, rdr_bytes, n_do, do_method, do_url, do_body, do_err, do_status, do_final_method, do_resp_body, rd_buf, n_dfl, n_dfl_fail
 //@   // every configured log is attempted (a failure does not stop the others), and the result reports whether any failed
 //@   ensures[C15.6] n_dfl == old(n_dfl) + len(d.logs)
 //@   ensures[C15.6] (err != nil) == (n_dfl_fail != old(n_dfl_fail))
